@@ -11,9 +11,22 @@
 //!   `lagrange via=setup|downsize` Lagrange-basis scalars of `unsafe_setup` (chunked for `t`
 //!                                threads) / `downsize`;
 //!   `paramslayout`, `paramsparse`, `pkparse`, `mvkparse`, `mpkparse` (wrapper headers of
-//!                                zk_stdlib and their structural variants).
-//! Oracle: determinism over pools × repetitions, write-A/read-B matrix for vk, pk, params,
-//! 4-way proof cross-verification, downsize = fresh setup.
+//!                                zk_stdlib and their structural variants);
+//!   `pkfull via=keygen|read`     every part of a proving key that is not serialised (l0, l_last,
+//!                                l_active_row, coefficient / extended forms of the fixed and
+//!                                permutation columns) of the real generated / reloaded key
+//!                                against the model of the tail of `keygen_pk` / of
+//!                                `ProvingKey::read` run on the real byte image (also on images
+//!                                with a permutation polynomial too few / too many);
+//!   `perminv`                    classes of the recorded copies by plain closure against the
+//!                                union-find state (and invariant) of the model's `Assembly`,
+//!                                also for the reversed and the flipped copy list;
+//!   `paramsreload`               `read_custom` in format B of an image written in format A.
+//! Oracle: determinism over pools × repetitions × processes (child processes of this binary:
+//! other hash-map seeds), write-A/read-B matrix for vk, pk, params, downsized params, verifier
+//! params with byte identity, basis consistency (commit = commit_lagrange = [f(s)]G) and
+//! interchangeable keys/proofs across original / reloaded / downsized / fresh parameter sets,
+//! 4-way proof cross-verification for every compatible format pair, downsize = fresh setup.
 
 mod keys;
 mod params;
@@ -26,14 +39,8 @@ use mzkh::{
     Ctx,
 };
 
-fn main() {
-    let mut ctx = Ctx::from_args("C17");
-    assert!(ser::modulus_is_bls_scalar());
-    let (n_members, reps, kmax, all_pk, commit_cols) = match ctx.tier.as_str() {
-        "quick" => (10usize, 2usize, 7u32, false, 6usize),
-        "thorough" => (48, 4, 10, true, 64),
-        _ => (30, 3, 8, true, 4),
-    };
+/// The three fixed members of the family every run starts with.
+fn fixed_members() -> Vec<(FamParams, u64)> {
     let every = FamParams {
         n_adv0: 4,
         n_adv1: 1,
@@ -49,17 +56,73 @@ fn main() {
         table_bits: 3,
     };
     let minimal = FamParams { copies: false, inst_copies: false, n_plain: 0, steps: 2, ..FamParams::default() };
-    let mut members: Vec<(FamParams, u64)> = vec![(every, 31), (minimal, 32), (FamParams::default(), 33)];
+    vec![(every, 31), (minimal, 32), (FamParams::default(), 33)]
+}
+
+/// One line per subject: everything that identifies the keys a process generates (vk bytes in
+/// all formats, transcript identity, description, pk bytes, recomputed parts of the pk). Run
+/// in this process and in child processes (where `std::collections::HashMap`'s `RandomState`
+/// has other keys) under several pools.
+fn identity_lines(pool: usize) -> Vec<String> {
+    let mut out = vec![];
+    let dig = |b: &[u8]| ser::hex(blake2b_simd::Params::new().hash_length(16).hash(b).as_bytes());
+    keys::in_pool(pool, || {
+        for (fp, seed) in fixed_members() {
+            let s = keys::fam_subject(&fp, seed);
+            let img = keys::vk_image(&s.vk);
+            out.push(format!(
+                "fam{seed} k={} vk={} {} {} trepr={} desc={} pk={} derived={}",
+                s.k,
+                dig(&img.bytes[0]),
+                dig(&img.bytes[1]),
+                dig(&img.bytes[2]),
+                img.repr,
+                dig(img.desc.as_bytes()),
+                dig(&s.pk.to_bytes(midnight_proofs::utils::SerdeFormat::RawBytes)),
+                keys::pk_full_digest(&s.pk)
+            ));
+            if let Some(l) = keys::v1_identity(&fp, seed) {
+                out.push(format!("v1-fam{seed} {l}"));
+            }
+        }
+        out.extend(rel::identity_lines());
+    });
+    out
+}
+
+fn main() {
+    if let Ok(pool) = std::env::var("H_C17_CHILD") {
+        // child mode: print the identity lines and leave (no files are written)
+        mzkh::quiet_panics();
+        for l in identity_lines(pool.parse().expect("pool")) {
+            println!("{l}");
+        }
+        return;
+    }
+    let mut ctx = Ctx::from_args("C17");
+    assert!(ser::modulus_is_bls_scalar());
+    let (n_members, reps, kmax, all_pk, commit_cols) = match ctx.tier.as_str() {
+        "quick" => (10usize, 2usize, 7u32, true, 6usize),
+        "thorough" => (48, 4, 10, true, 64),
+        _ => (30, 3, 8, true, 4),
+    };
+    let mut members: Vec<(FamParams, u64)> = fixed_members();
     let mut rng = ctx.rng("family");
     for i in 0..n_members {
         members.push((sample_params(&mut rng), 5000 + ctx.seed * 100 + i as u64));
     }
-    for (fp, seed) in &members {
+    let mut fit: Option<(FamParams, u64, u32)> = None;
+    for (idx, (fp, seed)) in members.iter().enumerate() {
         let s = keys::fam_subject(fp, *seed);
         ctx.count(&format!("family:k{}", s.k));
+        if s.k <= kmax && (fit.is_none() || idx == 2) {
+            fit = Some((fp.clone(), *seed, s.k));
+        }
         keys::determinism(&mut ctx, &s, reps);
         keys::vk_bytes_cases(&mut ctx, &s);
         keys::pk_bytes_case(&mut ctx, &s);
+        let every_format = !ctx.quick() || idx < 3;
+        keys::pk_full_cases(&mut ctx, &s, idx, every_format);
         let (vks, pks) = keys::roundtrip_matrix(&mut ctx, &s);
         keys::proof_matrix(&mut ctx, &s, &vks, &pks, all_pk);
         keys::commit_cases(&mut ctx, &s, commit_cols);
@@ -70,10 +133,56 @@ fn main() {
         }
     }
     let seed = ctx.seed;
-    params::params_cases(&mut ctx, kmax, 4242 + seed);
+    let circ = fit.as_ref().map(|(fp, s, k)| (fp, *s, *k));
+    params::params_cases(&mut ctx, kmax, 4242 + seed, circ);
     if !ctx.quick() {
-        params::params_cases(&mut ctx, 3, 77 + seed);
+        params::params_cases(&mut ctx, 3, 77 + seed, None);
     }
     rel::relation_cases(&mut ctx);
+    cross_process(&mut ctx);
     ctx.finish();
+}
+
+/// Priority "schedules": the same keys from other processes (other `RandomState` keys for every
+/// `HashMap` of the layouters and of key generation) under other pools.
+fn cross_process(ctx: &mut Ctx) {
+    let base = identity_lines(1);
+    let exe = match std::env::current_exe() {
+        Ok(e) => e,
+        Err(e) => {
+            ctx.count(&format!("cross-process:skipped:{e}"));
+            return;
+        }
+    };
+    let pools: &[usize] = if ctx.quick() { &[1, 5, 16] } else { &[1, 2, 3, 5, 8, 16, 1, 5] };
+    let children: Vec<_> = pools
+        .iter()
+        .map(|t| (*t, std::process::Command::new(&exe).env("H_C17_CHILD", t.to_string()).stdout(std::process::Stdio::piped()).stderr(std::process::Stdio::null()).spawn()))
+        .collect();
+    for (t, ch) in children {
+        let out = match ch.and_then(|c| c.wait_with_output()) {
+            Ok(o) if o.status.success() => String::from_utf8_lossy(&o.stdout).to_string(),
+            other => {
+                ctx.oracle_fail("cross-process:child-failed", "a child process generating the same keys failed", serde_json::json!({"threads": t, "result": format!("{:?}", other.map(|o| o.status))}));
+                continue;
+            }
+        };
+        let lines: Vec<String> = out.lines().map(|l| l.to_string()).collect();
+        ctx.count(&format!("cross-process:pool{t}"));
+        ctx.count_n("cross-process:subjects", lines.len() as u64);
+        if lines.len() != base.len() {
+            ctx.oracle_fail("cross-process:subject-count", "a child process reported another number of subjects", serde_json::json!({"threads": t, "child": lines.len(), "parent": base.len()}));
+            continue;
+        }
+        for (a, b) in base.iter().zip(lines.iter()) {
+            if a != b {
+                let id = a.split(' ').next().unwrap_or("?").to_string();
+                ctx.oracle_fail(
+                    &format!("keygen-differs-across-processes:{id}"),
+                    "another process (other hash-map seeds, other thread count) generated different keys for the same parameters and circuit",
+                    serde_json::json!({"threads": t, "parent": a, "child": b}),
+                );
+            }
+        }
+    }
 }
